@@ -12,7 +12,7 @@ PROPS = ['Props/Properties_C31.v']
 EXTRACT = '''From Coq Require Import Extraction ExtrOcamlBasic.
 Require Import C31_Model.
 Extraction "C31x.ml" sfmt_out32 sfmt_out64 set_seed next_raw raw_seq res53 uniform_value uniform_int
-  uniform_expr uniform_raw uniform_int_raw floorZ bits_of of_bits fofZ fofZ2 gauss_value polar extend init_gen_rand.
+  uniform_expr uniform_raw uniform_int_raw urun unew grun gparams floorZ bits_of of_bits fofZ fofZ2 gauss_value polar extend init_gen_rand.
 '''
 # witness of the Coq theorem C31_prefix_uniform_int_overshoot (raw draw 1903775 after setSeed(1))
 WIT_V = 0xfffffea7af9b68dd
@@ -92,6 +92,30 @@ def gen_commands(ctx):
         elif c < 0.8: a = float(r.randrange(-300, 300)); b = a + r.randrange(1, 300)
         else: a, b = interval()
         add('expr', 'EX %s %s %s' % (dbits(a), dbits(b), r.choice(tops)))
+    # histories of one generator object: draws interleaved with setMean/setStdDev (setMin/setMax), setSeed and
+    # fillArray, after odd and even numbers of draws
+    def hist(kind):
+        ops = []; nd = 0
+        for _ in range(r.randrange(3, 9)):
+            c = r.random()
+            if c < 0.45: k = r.choice([1, 1, 1, 2, 3]); ops += ['g'] * k; nd += k
+            elif c < 0.55 and kind == 'U': ops.append('i'); nd += 1
+            elif c < 0.65: k = r.choice([1, 2, 3, 5]); ops.append('f%d' % k); nd += k
+            elif c < 0.8:
+                if kind == 'G': ops.append('m' + dbits(r.choice([0.0, r.uniform(-100, 100)])))
+                else: ops.append('m' + dbits(float(r.randrange(-1000, 0))))
+            elif c < 0.95:
+                if kind == 'G': ops.append('x' + dbits(r.choice([0.0, 1.0, r.uniform(0.01, 10)])))
+                else: ops.append('x' + dbits(float(r.randrange(1, 1000))))
+            else: ops.append('s%d' % r.choice(seeds))
+        ops += ['g', 'g']
+        return ' '.join(ops)
+    for i in range(60 if T else 20):
+        add('gauss-history', 'HG %d %s %s %s' % (r.choice(seeds), dbits(r.uniform(-10, 10)), dbits(r.uniform(0.1, 5)), hist('G')))
+        add('uniform-history', 'HU %d %s %s %s' % (r.choice(seeds), dbits(float(r.randrange(-50, 0))), dbits(float(r.randrange(1, 50))), hist('U')))
+    # the minimal stale-cache histories: ONE draw, then a parameter change, then the next value
+    add('gauss-history', 'HG 1 %s %s g x0 g g' % (dbits(5.0), dbits(2.0)))
+    add('gauss-history', 'HG 2 %s %s g m%s g g s2 g' % (dbits(5.0), dbits(2.0), dbits(-7.0)))
     # Gaussian
     for i in range(12 if T else 5):
         add('gauss', 'GA %d %s %s %d' % (r.choice(seeds), dbits(r.uniform(-10, 10)), dbits(r.uniform(0.1, 5)), 400))
@@ -221,6 +245,6 @@ def run(ctx):
         'gen_rand_all / gen_rand_array index arithmetic is modelled as the plain recursion stream; its agreement with the code (all four loops of gen_rand_array, sizes 312..2048) is established by the bit-exact correspondence only',
         'statistical mean/variance of the sequences is not decided (a statistical test is not a theorem)',
         'init_by_array is not modelled (unused by SimTK::Random)']
-    if ctx.broken or T:
-        if okc: search(ctx, exe, 300 if not T else 3000)
+    # the search is model-independent and cheap: run it on every run (larger when something broke or in thorough)
+    if okc: search(ctx, exe, 3000 if T else (300 if ctx.broken else 150))
     ctx.finish()
